@@ -280,8 +280,23 @@ func purityExec(c Case) Event {
 		if i%5 == 4 {
 			g = g.ForceCoordinatesType(geom.DimXYZM)
 		}
-		if i < 2 && c.boolean("big") {
-			g = bigLatticeTo(r, 12, 16).bigAny()
+		if i < 3 && c.boolean("big") {
+			bl := bigLatticeTo(r, 12, 16)
+			switch i {
+			case 0: // a polygon with a ring of many vertices or with many holes
+				g = bl.bigPolygon().AsGeometry()
+			case 1:
+				g = bl.bigAny()
+			default:
+				// the vertices of the first value as a MultiPoint: overlaid with it, every vertex is a node of the
+				// arrangement, and the result's rings are assembled from as many pieces
+				sq := vals[0].g.DumpCoordinates()
+				var ps []geom.Point
+				for k := 0; k < sq.Length(); k++ {
+					ps = append(ps, sq.GetXY(k).AsPoint())
+				}
+				g = geom.NewMultiPoint(ps).AsGeometry()
+			}
 		}
 		vals = append(vals, withParts(g))
 		if bx, ok := g.Envelope().AsBox(); ok {
@@ -416,7 +431,7 @@ func purityGen(r *rand.Rand, n int, tier string, emit func(Case)) {
 		threads := []int{2, 3, 4, 8, 16}[i%5]
 		emit(Case{"seed": r.Int63(), "threads": threads, "calls": 60, "nvals": 5 + r.Intn(4)})
 	}
-	for i := 0; i < 2+n/8; i++ { // large sizes: two of the shared values have many members or many vertices
+	for i := 0; i < 2+n/4; i++ { // large sizes: two of the shared values have many members or many vertices
 		emit(Case{"seed": r.Int63(), "threads": []int{2, 4, 8}[i%3], "calls": 40, "nvals": 4 + r.Intn(3), "big": true})
 	}
 }
